@@ -2498,4 +2498,310 @@ theorem evalChain_nomerge (L : Lib) (f g : String) (h : chains f g = false) (x0 
 example : chains "zip" "zip" = true ∧ chains "ziplongest" "ziplongest" = true ∧ chains "**" "**" = true
     ∧ chains "ziplongest" "zip" = false ∧ chains "zip" "ziplongest" = false := by decide
 
+/-! ## uncons / unsnoc, substring search, bounded and right-to-left split -/
+
+theorem lib_uncons : implLib.uncons = specLib.uncons := by
+  funext xs; cases xs <;> rfl
+
+theorem lib_unsnoc : implLib.unsnoc = specLib.unsnoc := by
+  funext xs
+  show unsnoc xs = (match xs.getLast? with | some e => some (xs.dropLast, e) | none => none)
+  simp only [unsnoc]
+  cases h : xs.getLast? <;> rfl
+
+theorem findSubGo_eq [BEq γ] (pat : List γ) (i : Nat) (s : List γ) :
+    findSubGo pat i s = (SeqSpec.findSub pat s).map (· + i) := by
+  induction s generalizing i with
+  | nil =>
+    cases pat <;> simp [findSubGo, SeqSpec.findSub, List.isPrefixOf, List.range_succ_eq_map]
+  | cons c cs ih =>
+    simp only [findSubGo, SeqSpec.findSub, List.length_cons]
+    rw [List.range_succ_eq_map, List.find?_cons]
+    simp only [List.drop_zero]
+    by_cases hp : pat.isPrefixOf (c :: cs) = true
+    · simp [hp]
+    · have hp' : pat.isPrefixOf (c :: cs) = false := by simpa using hp
+      simp only [hp', Bool.false_eq_true, if_false, ih, SeqSpec.findSub, List.find?_map, Option.map_map]
+      congr 1
+      funext j; simp; omega
+
+theorem findSub_eq [BEq γ] (pat s : List γ) : findSub pat s = SeqSpec.findSub pat s := by
+  simp [findSub, findSubGo_eq]
+
+/-- the bounded-split formula on a list of pieces -/
+def boundPieces (pat : List γ) (ps : List (List γ)) (n : Nat) : List (List γ) :=
+  if n = 0 then [] else if ps.length ≤ n then ps else ps.take (n - 1) ++ [pat.intercalate (ps.drop (n - 1))]
+
+theorem intercalate_singleton (sep a : List γ) : sep.intercalate [a] = a := by
+  simp [List.intercalate, List.intersperse]
+
+theorem intercalate_consHead (sep cur : List γ) (h : List γ) (t : List (List γ)) :
+    sep.intercalate (consHead cur (h :: t)) = cur ++ sep.intercalate (h :: t) := by
+  cases t with
+  | nil => simp [consHead, intercalate_singleton]
+  | cons b t => simp [consHead, intercalate_cons_cons]
+
+theorem isPrefixOf_split [BEq γ] [LawfulBEq γ] (pat s : List γ) (h : pat.isPrefixOf s = true) :
+    pat ++ s.drop pat.length = s := by
+  induction pat generalizing s with
+  | nil => simp
+  | cons p ps ih =>
+    cases s with
+    | nil => simp [List.isPrefixOf] at h
+    | cons c cs =>
+      simp only [List.isPrefixOf, Bool.and_eq_true, beq_iff_eq] at h
+      obtain ⟨rfl, h2⟩ := h
+      simp [ih cs h2]
+
+/-- **join inverts split**: `join sep (split s sep) = s` -/
+theorem intercalate_splitPat [BEq γ] [LawfulBEq γ] (pat : List γ) (hp : pat ≠ []) (fuel : Nat) (s : List γ)
+    (hf : s.length < fuel) : pat.intercalate (SeqSpec.splitPat pat fuel s) = s := by
+  induction fuel generalizing s with
+  | zero => omega
+  | succ fuel ih =>
+    cases s with
+    | nil => simp [SeqSpec.splitPat, intercalate_singleton]
+    | cons c cs =>
+      simp only [SeqSpec.splitPat]
+      by_cases hm : pat.isPrefixOf (c :: cs) = true
+      · simp only [hm, if_true]
+        have hlen : ((c :: cs).drop pat.length).length < fuel := by
+          have : 0 < pat.length := List.length_pos_iff.mpr hp
+          simp only [List.length_drop, List.length_cons] at hf ⊢; omega
+        have hrec := ih _ hlen
+        cases hq : SeqSpec.splitPat pat fuel ((c :: cs).drop pat.length) with
+        | nil => exact absurd hq (splitPat_ne_nil _ _ _)
+        | cons a b =>
+          rw [hq] at hrec
+          rw [intercalate_cons_cons, hrec]
+          simpa using isPrefixOf_split pat (c :: cs) hm
+      · have hm' : pat.isPrefixOf (c :: cs) = false := by cases hb : pat.isPrefixOf (c :: cs) <;> simp_all
+        simp only [hm', Bool.false_eq_true, if_false]
+        have hrec := ih cs (by simp at hf; omega)
+        cases hq : SeqSpec.splitPat pat fuel cs with
+        | nil => exact absurd hq (splitPat_ne_nil _ _ _)
+        | cons a b =>
+          rw [hq] at hrec
+          have := intercalate_consHead pat [c] a b
+          simp only [consHead, List.singleton_append] at this
+          rw [this, hrec]
+
+theorem consHead_consHead (a b : List γ) (ps : List (List γ)) (h : ps ≠ []) :
+    consHead a (consHead b ps) = consHead (a ++ b) ps := by
+  cases ps with
+  | nil => exact absurd rfl h
+  | cons x t => simp [consHead]
+
+theorem boundPieces_cons (pat cur : List γ) (Q : List (List γ)) (n : Nat) :
+    boundPieces pat (cur :: Q) (n + 2) = cur :: boundPieces pat Q (n + 1) := by
+  simp only [boundPieces, List.length_cons]
+  by_cases h : Q.length ≤ n + 1
+  · have h' : Q.length + 1 ≤ n + 2 := by omega
+    simp [h, h']
+  · have h' : ¬ (Q.length + 1 ≤ n + 2) := by omega
+    simp [h, h']
+
+theorem splitnGo_eq [BEq γ] [LawfulBEq γ] (pat : List γ) (hp : pat ≠ []) (fuel n : Nat) (cur s : List γ)
+    (hf : s.length < fuel) :
+    splitnGo pat fuel n cur s = boundPieces pat (consHead cur (SeqSpec.splitPat pat fuel s)) n := by
+  induction fuel generalizing n cur s with
+  | zero => omega
+  | succ fuel ih =>
+    match n with
+    | 0 => simp [splitnGo, boundPieces]
+    | 1 =>
+      simp only [splitnGo, boundPieces]
+      have hr := intercalate_splitPat pat hp (fuel + 1) s hf
+      cases hq : SeqSpec.splitPat pat (fuel + 1) s with
+      | nil => exact absurd hq (splitPat_ne_nil _ _ _)
+      | cons a b =>
+        rw [hq] at hr
+        cases b with
+        | nil =>
+          rw [intercalate_singleton] at hr
+          simp [consHead, hr]
+        | cons b0 b1 =>
+          have := intercalate_consHead pat cur a (b0 :: b1)
+          simp only [consHead] at this
+          simp [consHead, this, hr]
+    | n + 2 =>
+      cases s with
+      | nil => simp [splitnGo, SeqSpec.splitPat, consHead, boundPieces]
+      | cons c cs =>
+        simp only [splitnGo, SeqSpec.splitPat, stripPrefix_eq]
+        by_cases hm : pat.isPrefixOf (c :: cs) = true
+        · simp only [hm, if_true]
+          have hlen : ((c :: cs).drop pat.length).length < fuel := by
+            have : 0 < pat.length := List.length_pos_iff.mpr hp
+            simp only [List.length_drop, List.length_cons] at hf ⊢; omega
+          rw [ih (n + 1) [] _ hlen]
+          cases hq : SeqSpec.splitPat pat fuel ((c :: cs).drop pat.length) with
+          | nil => exact absurd hq (splitPat_ne_nil _ _ _)
+          | cons a b =>
+            simp only [consHead, List.nil_append, List.append_nil]
+            rw [boundPieces_cons]
+        · have hm' : pat.isPrefixOf (c :: cs) = false := by cases hb : pat.isPrefixOf (c :: cs) <;> simp_all
+          simp only [hm', Bool.false_eq_true, if_false]
+          rw [ih (n + 2) (cur ++ [c]) cs (by simp at hf; omega)]
+          have hne := splitPat_ne_nil pat fuel cs
+          cases hq : SeqSpec.splitPat pat fuel cs with
+          | nil => exact absurd hq hne
+          | cons a b => simp [consHead]
+
+theorem intercalate_nil (ps : List (List γ)) : ([] : List γ).intercalate ps = ps.flatten := by
+  induction ps with
+  | nil => rfl
+  | cons a t ih =>
+    cases t with
+    | nil => simp [intercalate_singleton]
+    | cons b t => rw [intercalate_cons_cons, ih]; simp
+
+/-- **split with a limit**: at most `n` pieces, the last one being the rest of the text, i.e.
+the remaining pieces joined by the separator again -/
+theorem splitn_eq [BEq γ] [LawfulBEq γ] (s pat : List γ) (n : Nat) : splitn s pat n = SeqSpec.splitn s pat n := by
+  by_cases hp : pat = []
+  · subst hp
+    simp [splitn, SeqSpec.splitn, SeqSpec.split, intercalate_nil]
+  · have hp' : pat.isEmpty = false := by cases pat <;> simp_all
+    simp only [splitn, SeqSpec.splitn, SeqSpec.split, hp', Bool.false_eq_true, if_false]
+    rw [splitnGo_eq pat hp _ n [] s (by omega)]
+    cases hq : SeqSpec.splitPat pat (s.length + 1) s with
+    | nil => exact absurd hq (splitPat_ne_nil _ _ _)
+    | cons a b =>
+      simp only [consHead, boundPieces, List.nil_append, List.length_cons]
+      by_cases h0 : n = 0
+      · simp [h0]
+      · by_cases h1 : b.length + 1 ≤ n <;> simp [h0, h1]
+
+theorem rsplit_eq [BEq γ] (s pat : List γ) : rsplit s pat = SeqSpec.rsplit s pat := by
+  simp [rsplit, SeqSpec.rsplit, split_eq]
+
+theorem rsplitn_eq [BEq γ] [LawfulBEq γ] (s pat : List γ) (n : Nat) : rsplitn s pat n = SeqSpec.rsplitn s pat n := by
+  simp [rsplitn, SeqSpec.rsplitn, splitn_eq]
+
+theorem lib_findSub : implLib.findSub = specLib.findSub := by funext p s; exact findSub_eq p s
+theorem lib_splitn : implLib.splitn = specLib.splitn := by funext s p n; exact splitn_eq s p n
+theorem lib_rsplit : implLib.rsplit = specLib.rsplit := by funext s p; exact rsplit_eq s p
+theorem lib_rsplitn : implLib.rsplitn = specLib.rsplitn := by funext s p n; exact rsplitn_eq s p n
+
+
+
+/-! ## merge as a finite map
+`merge(d1, d2, …[, f])`: under each key, the values the dictionaries hold for it, left to right,
+combined with `f` (without `f`: the last one wins).  The entry order comes out of a `HashMap`. -/
+
+/-- the combining step of `merge` for a callback that never fails (`none` = overwrite) -/
+def mergeOp (g : Option (β → β → β)) (old v : β) : β :=
+  match g with
+  | none => v
+  | some g => g old v
+
+def liftOp (g : Option (β → β → β)) : Option (β → β → Out β) := g.map fun g a b => .ok (g a b)
+
+/-- what the map holds under `k` after `(k', v)` arrives -/
+theorem mergeEntry_pure [BEq κ] [LawfulBEq κ] (g : Option (β → β → β)) (k' : κ) (v : β) (m : List (κ × β)) :
+    ∃ m', mergeEntry (liftOp g) k' v m = .ok m' ∧
+      ∀ k, m'.lookup k = if k == k' then some (match m.lookup k with
+                                              | some old => mergeOp g old v
+                                              | none => v) else m.lookup k := by
+  induction m with
+  | nil =>
+    refine ⟨[(k', v)], rfl, ?_⟩
+    intro k
+    simp only [List.lookup]
+    cases h : k == k' <;> simp
+  | cons e m ih =>
+    obtain ⟨k2, old⟩ := e
+    obtain ⟨m', hm', hl⟩ := ih
+    by_cases h2 : (k2 == k') = true
+    · have e2 : k2 = k' := by simpa using h2
+      subst e2
+      cases g with
+      | none =>
+        refine ⟨(k2, v) :: m, by simp [mergeEntry, liftOp], ?_⟩
+        intro k
+        simp only [List.lookup]
+        cases h : k == k2 <;> simp [mergeOp]
+      | some g =>
+        refine ⟨(k2, g old v) :: m, by simp [mergeEntry, liftOp], ?_⟩
+        intro k
+        simp only [List.lookup]
+        cases h : k == k2 <;> simp [mergeOp]
+    · have h2' : (k2 == k') = false := by cases hb : k2 == k' <;> simp_all
+      refine ⟨(k2, old) :: m', by simp [mergeEntry, h2', hm'], ?_⟩
+      intro k
+      simp only [List.lookup, hl k]
+      cases h : k == k2 with
+      | false => rfl
+      | true =>
+        have : k = k2 := by simpa using h
+        subst this
+        simp [h2']
+
+def foldVals (g : Option (β → β → β)) (cur : Option β) (v : Option β) : Option β :=
+  match v with
+  | none => cur
+  | some v => some (match cur with
+                    | some old => mergeOp g old v
+                    | none => v)
+
+theorem mergeDict_pure [BEq κ] [LawfulBEq κ] (g : Option (β → β → β)) (ret d : List (κ × β))
+    (hd : (d.map (·.1)).Nodup) :
+    ∃ r, mergeDict (liftOp g) ret d = .ok r ∧ ∀ k, r.lookup k = foldVals g (ret.lookup k) (d.lookup k) := by
+  induction d generalizing ret with
+  | nil => exact ⟨ret, rfl, fun k => by simp [foldVals, List.lookup]⟩
+  | cons e d ih =>
+    obtain ⟨k1, v1⟩ := e
+    obtain ⟨m', hm', hl⟩ := mergeEntry_pure g k1 v1 ret
+    have hnd := List.nodup_cons.mp hd
+    obtain ⟨r, hr, hrl⟩ := ih m' hnd.2
+    refine ⟨r, by simp [mergeDict, hm', hr], ?_⟩
+    intro k
+    rw [hrl k, hl k]
+    simp only [List.lookup]
+    cases h : k == k1 with
+    | false => rfl
+    | true =>
+      have : k = k1 := by simpa using h
+      subst this
+      have hnone : d.lookup k = none := by
+        rw [List.lookup_eq_none_iff]
+        intro p hp
+        cases hk : k == p.1 with
+        | false => simp [bne, hk]
+        | true =>
+          have hkp : k = p.1 := by simpa using hk
+          have hmem : p.1 ∈ d.map (·.1) := List.mem_map_of_mem (f := fun x : κ × β => x.1) hp
+          rw [← hkp] at hmem
+          exact absurd hmem hnd.1
+      simp [hnone, foldVals]
+
+theorem mergeAll_pure [BEq κ] [LawfulBEq κ] (g : Option (β → β → β)) (ret : List (κ × β)) (ds : List (List (κ × β)))
+    (hd : ∀ d ∈ ds, (d.map (·.1)).Nodup) :
+    ∃ r, mergeAll (liftOp g) ret ds = .ok r ∧
+      ∀ k, r.lookup k = (ds.map fun d => d.lookup k).foldl (foldVals g) (ret.lookup k) := by
+  induction ds generalizing ret with
+  | nil => exact ⟨ret, rfl, fun k => rfl⟩
+  | cons d ds ih =>
+    obtain ⟨r1, h1, l1⟩ := mergeDict_pure g ret d (hd d (by simp))
+    obtain ⟨r, h2, l2⟩ := ih r1 (fun x hx => hd x (List.mem_cons_of_mem _ hx))
+    refine ⟨r, by simp [mergeAll, h1, h2], ?_⟩
+    intro k
+    rw [l2 k, l1 k]
+    rfl
+
+/-- **merge as a finite map**: the value under `k` is the fold of the values the dictionaries
+hold for `k`, left to right (absent iff no dictionary has `k`) -/
+theorem merge_lookup [BEq κ] [LawfulBEq κ] (g : Option (β → β → β)) (ds : List (List (κ × β)))
+    (hd : ∀ d ∈ ds, (d.map (·.1)).Nodup) :
+    ∃ r, merge (liftOp g) ds = .ok r ∧
+      ∀ k, r.lookup k = (ds.map fun d => d.lookup k).foldl (foldVals g) none := by
+  obtain ⟨r, h, l⟩ := mergeAll_pure g [] ds hd
+  exact ⟨r, h, fun k => by simpa [List.lookup] using l k⟩
+
+/-- non-vacuity: `merge({1: 2, 3: 4}, {1: 10, 5: 6}, -)` -/
+example : merge (liftOp (some fun a b : Int => a - b)) [[(1, 2), (3, 4)], [(1, 10), (5, 6)]]
+    = .ok [((1 : Nat), (-8 : Int)), (3, 4), (5, 6)] := by decide
+
+
 end Noulith.C13
